@@ -111,7 +111,7 @@
     * the TEXT level, both halves: JSON encoding of the patch document by `RenderMerge` /
       `RenderPatch` and its parsing by `ReadMergeString` / `ReadPatchString` (`V1.renderMergeM` /
       `V1.readMergeM` beyond `v1_rendered_merge_text_is_encoding`; `V1.renderPatchM` beyond
-      `v1_rendered_patch_text_does_not_fail`; `patchOpsOfJson`, the decoding of the operations, is a
+      `v1_rendered_patch_text_does_not_fail`; `V1.patchOpsOfJson`, the decoding of the operations, is a
       hypothesis of `v1_read_patch_document_runs_the_loop`): (2) and (5) start from the patch
       document / the list of operations, not from its text;
     * SET / MULTISET metadata together with MERGE in v1 (merge half);
@@ -378,10 +378,10 @@ theorem v1_rendered_patch_reads_back_noDash (L : FloatLaws) {N : Nat} (I : V1P.I
   V1R.v1_render_read_patch_noDash L I hN m hm a b ha1 ha2 ha3 ha4 ha5 hb1 hb2 hb3 hb4 hda hdb
 
 /-- `ReadPatchString` on a decoded patch document whose operations are `ops` IS the element loop with
-    the fuel `ops.length + 1` used in (5) (the decoding `patchOpsOfJson` of the operations from the
+    the fuel `ops.length + 1` used in (5) (the decoding `V1.patchOpsOfJson` of the operations from the
     JSON document is a hypothesis: text layer) -/
 theorem v1_read_patch_document_runs_the_loop {doc : Json} {ops : List PatchOp} {d' : V1.PDiff}
-    (h1 : patchOpsOfJson doc = .ok ops)
+    (h1 : V1.patchOpsOfJson doc = .ok ops)
     (h2 : V1.readPatchLoop (ops.length + 1) ops [] = .ok d') : V1.readPatchDoc doc = .ok d' :=
   V1R.readPatchDoc_of_loop h1 h2
 
